@@ -11,6 +11,7 @@ import (
 	"go/token"
 	"go/types"
 	"golang.org/x/tools/go/ssa"
+	"path/filepath"
 	"reflect"
 	"sort"
 	"strings"
@@ -292,6 +293,8 @@ var schemaChecks = []schemaCheck{
 	{"schema.templates.fields", []string{"C16"}, dataFieldsAreStrings},
 	{"schema.decode.reflective", []string{"C20", "C08", "C01", "C03", "C04", "C05", "C06", "C10"}, noCustomUnmarshal},
 	{"schema.uuid.string", []string{"C18"}, uuidStringShape},
+	{"schema.config.frame", []string{"C17", "C01", "C02"}, configFrame},
+	{"schema.globals.frame", []string{"C17", "C18"}, globalsFrame},
 	{"schema.unverified.free", []string{"C20"}, func(w *World) (bool, string) {
 		ok1, d1 := freeFunc(w, "DecodeUnverifiedBaseResponse")
 		ok2, d2 := freeFunc(w, "DecodeUnverifiedLogoutResponse")
@@ -748,4 +751,299 @@ func schemaObligations(w *World, prop string) []*Obligation {
 		out = append(out, ob)
 	}
 	return out
+}
+
+// configFrame (C17, C01, C02): frame condition on the configuration object, checked for EVERY function of the repository,
+// with or without a contract. A store whose target is reached through a field of SAMLServiceProvider (sp.F = v,
+// sp.F.G = v, sp.F[i] = v, sp.F++, *sp = v) or an explicit &sp.F must be licensed by an `assigns` clause of the
+// enclosing function's contract that names that field; a function without a contract has no licence. A write to
+// the direct field of a local non-pointer copy of the struct is not a write to the shared object and is ignored.
+func configFrame(w *World) (bool, string) {
+	var bad []string
+	nFuncs, nStores := 0, 0
+	isSP := func(t types.Type) bool {
+		t = types.Unalias(t)
+		if p, ok := t.(*types.Pointer); ok {
+			t = types.Unalias(p.Elem())
+		}
+		n, ok := t.(*types.Named)
+		return ok && n.Obj().Name() == "SAMLServiceProvider" && n.Obj().Pkg() != nil && n.Obj().Pkg().Path() == repoModule
+	}
+	// static callers inside the repository: callee key -> caller keys (closures count for their enclosing function)
+	callers := map[string]map[string]bool{}
+	exported := map[string]bool{}
+	for _, p := range w.Pkgs {
+		if !strings.HasPrefix(p.PkgPath, repoModule) {
+			continue
+		}
+		for _, f := range p.Syntax {
+			for _, d := range f.Decls {
+				fd, ok := d.(*ast.FuncDecl)
+				if !ok || fd.Body == nil {
+					continue
+				}
+				obj, ok := p.TypesInfo.Defs[fd.Name].(*types.Func)
+				if !ok {
+					continue
+				}
+				from := funcKeyOf(obj)
+				exported[from] = obj.Exported()
+				ast.Inspect(fd.Body, func(n ast.Node) bool {
+					var id *ast.Ident
+					switch e := n.(type) {
+					case *ast.SelectorExpr:
+						id = e.Sel
+					case *ast.Ident:
+						id = e
+					}
+					if id != nil {
+						if callee, ok := p.TypesInfo.Uses[id].(*types.Func); ok && callee.Pkg() != nil && strings.HasPrefix(callee.Pkg().Path(), repoModule) {
+							k := funcKeyOf(callee)
+							if callers[k] == nil {
+								callers[k] = map[string]bool{}
+							}
+							callers[k][from] = true
+						}
+					}
+					return true
+				})
+			}
+		}
+	}
+	for _, p := range w.Pkgs {
+		if !strings.HasPrefix(p.PkgPath, repoModule) {
+			continue
+		}
+		for _, f := range p.Syntax {
+			for _, d := range f.Decls {
+				fd, ok := d.(*ast.FuncDecl)
+				if !ok || fd.Body == nil {
+					continue
+				}
+				nFuncs++
+				key, name := fd.Name.Name, fd.Name.Name
+				if obj, ok := p.TypesInfo.Defs[fd.Name].(*types.Func); ok {
+					key = funcKeyOf(obj)
+					name = shortFn(key)
+				}
+				var licensedFn func(key, field string, seen map[string]bool) bool
+				licensedFn = func(key, field string, seen map[string]bool) bool {
+					sp := w.FuncSpecs[key]
+					if sp == nil {
+						// an unexported helper without a contract is verified as part of its callers (it is inlined
+						// there): it inherits the licence if it is referenced and every function referring to it has one
+						if exported[key] || len(callers[key]) == 0 || seen[key] {
+							return false
+						}
+						seen[key] = true
+						for c := range callers[key] {
+							if c != key && !licensedFn(c, field, seen) {
+								return false
+							}
+						}
+						return true
+					}
+					for _, a := range sp.Assigns {
+						if a.All || a.Field == field {
+							return true
+						}
+						found := false
+						var walk func(e SExpr)
+						walk = func(e SExpr) {
+							switch n := e.(type) {
+							case *SSelect:
+								if n.Sel == field {
+									found = true
+								}
+								walk(n.X)
+							case *SIndex:
+								walk(n.X)
+							case *SUnary:
+								walk(n.X)
+							}
+						}
+						if a.Expr != nil {
+							walk(a.Expr)
+						}
+						if found {
+							return true
+						}
+					}
+					return false
+				}
+				licensed := func(field string) bool { return licensedFn(key, field, map[string]bool{}) }
+				// target reports the SAMLServiceProvider field through which the expression e is reached ("" if none)
+				target := func(e ast.Expr) (field string, directOnCopy bool) {
+					depth := 0
+					for {
+						switch n := e.(type) {
+						case *ast.ParenExpr:
+							e = n.X
+						case *ast.IndexExpr:
+							e = n.X
+							depth++
+						case *ast.SliceExpr:
+							e = n.X
+							depth++
+						case *ast.StarExpr:
+							if tv, ok := p.TypesInfo.Types[n]; ok && isSP(tv.Type) {
+								if _, isPtr := types.Unalias(tv.Type).(*types.Pointer); !isPtr && depth == 0 {
+									return "*", false
+								}
+							}
+							e = n.X
+							depth++
+						case *ast.SelectorExpr:
+							if sel := p.TypesInfo.Selections[n]; sel != nil && sel.Kind() == types.FieldVal && isSP(sel.Recv()) {
+								copyBase := false
+								if id, ok := n.X.(*ast.Ident); ok {
+									if _, isPtr := types.Unalias(p.TypesInfo.TypeOf(id)).(*types.Pointer); !isPtr {
+										if v, ok := p.TypesInfo.Uses[id].(*types.Var); ok && !v.IsField() && v.Parent() != nil && v.Parent() != v.Pkg().Scope() {
+											copyBase = true
+										}
+									}
+								}
+								return n.Sel.Name, copyBase && depth == 0
+							}
+							e = n.X
+							depth++
+						default:
+							return "", false
+						}
+					}
+				}
+				check := func(e ast.Expr, what string) {
+					field, onCopy := target(e)
+					if field == "" || onCopy {
+						return
+					}
+					nStores++
+					if !licensed(field) {
+						pos := w.Fset.Position(e.Pos())
+						bad = append(bad, fmt.Sprintf("%s %s SAMLServiceProvider.%s at %s:%d without an assigns clause for it (in its own contract or, for an unexported helper without contract, in the contract of every function that uses it)", name, what, field, filepath.Base(pos.Filename), pos.Line))
+					}
+				}
+				ast.Inspect(fd.Body, func(n ast.Node) bool {
+					switch s := n.(type) {
+					case *ast.AssignStmt:
+						if s.Tok != token.DEFINE {
+							for _, l := range s.Lhs {
+								check(l, "writes")
+							}
+						}
+					case *ast.IncDecStmt:
+						check(s.X, "writes")
+					case *ast.UnaryExpr:
+						if s.Op == token.AND {
+							check(s.X, "takes the address of")
+						}
+					case *ast.RangeStmt:
+						if s.Tok == token.ASSIGN {
+							if s.Key != nil {
+								check(s.Key, "writes")
+							}
+							if s.Value != nil {
+								check(s.Value, "writes")
+							}
+						}
+					}
+					return true
+				})
+			}
+		}
+	}
+	if len(bad) > 0 {
+		sort.Strings(bad)
+		return false, strings.Join(bad, "; ")
+	}
+	return true, fmt.Sprintf("%d function bodies of the repository scanned: %d stores reach a SAMLServiceProvider field, each licensed by an assigns clause of its function's contract (unexported helpers without contract: of every function using them)", nFuncs, nStores)
+}
+
+// globalsFrame (C17, C18): no function of the repository -- init functions included -- assigns to a package-level
+// variable, its own or another package's (crypto/rand.Reader, a shared table, a cached value), or takes its address.
+// Package-level state that is written after initialisation is shared by every caller and every goroutine; the
+// dependency contracts (crypto/rand.Read reads the OS CSPRNG, package tables are constants) assume it is not.
+func globalsFrame(w *World) (bool, string) {
+	var bad []string
+	nFuncs := 0
+	for _, p := range w.Pkgs {
+		if !strings.HasPrefix(p.PkgPath, repoModule) {
+			continue
+		}
+		for _, f := range p.Syntax {
+			for _, d := range f.Decls {
+				fd, ok := d.(*ast.FuncDecl)
+				if !ok || fd.Body == nil {
+					continue
+				}
+				nFuncs++
+				// global reports the package-level variable at the root of the expression e (nil if none)
+				global := func(e ast.Expr) *types.Var {
+					for {
+						switch n := e.(type) {
+						case *ast.ParenExpr:
+							e = n.X
+						case *ast.IndexExpr:
+							e = n.X
+						case *ast.SliceExpr:
+							e = n.X
+						case *ast.StarExpr:
+							e = n.X
+						case *ast.SelectorExpr:
+							if v, ok := p.TypesInfo.Uses[n.Sel].(*types.Var); ok && !v.IsField() && v.Pkg() != nil && v.Parent() == v.Pkg().Scope() {
+								return v // pkg.Var
+							}
+							e = n.X
+						case *ast.Ident:
+							if v, ok := p.TypesInfo.Uses[n].(*types.Var); ok && !v.IsField() && v.Pkg() != nil && v.Parent() == v.Pkg().Scope() {
+								return v
+							}
+							return nil
+						default:
+							return nil
+						}
+					}
+				}
+				check := func(e ast.Expr, what string) {
+					if v := global(e); v != nil {
+						pos := w.Fset.Position(e.Pos())
+						bad = append(bad, fmt.Sprintf("%s %s package-level variable %s.%s at %s:%d", fd.Name.Name, what, v.Pkg().Name(), v.Name(), filepath.Base(pos.Filename), pos.Line))
+					}
+				}
+				ast.Inspect(fd.Body, func(n ast.Node) bool {
+					switch s := n.(type) {
+					case *ast.AssignStmt:
+						if s.Tok != token.DEFINE {
+							for _, l := range s.Lhs {
+								check(l, "writes")
+							}
+						}
+					case *ast.IncDecStmt:
+						check(s.X, "writes")
+					case *ast.UnaryExpr:
+						if s.Op == token.AND {
+							if _, isLit := s.X.(*ast.CompositeLit); !isLit {
+								check(s.X, "takes the address of")
+							}
+						}
+					case *ast.RangeStmt:
+						if s.Tok == token.ASSIGN {
+							if s.Key != nil {
+								check(s.Key, "writes")
+							}
+							if s.Value != nil {
+								check(s.Value, "writes")
+							}
+						}
+					}
+					return true
+				})
+			}
+		}
+	}
+	if len(bad) > 0 {
+		sort.Strings(bad)
+		return false, strings.Join(bad, "; ")
+	}
+	return true, fmt.Sprintf("%d function bodies of the repository scanned: none assigns to a package-level variable or takes its address", nFuncs)
 }
